@@ -41,7 +41,7 @@ func astWire(re *syntax.Regexp) string {
 // fast-path templates and their one-node mutations (the boundary of each applicability whitelist)
 var c19Seeds = []string{`[a-z]+`, `\d+`, `\w+`, `[0-9a-f]+`, `\s+`, `[a-z]+[0-9]+`, `[a-z]+\d*x?`, `\d{1,3}[a-c]{2}`, `[a-z]{1,2}[0-9]+`, `[a-z]{2,3}[0-9]`, `[0-9]{1,3}[a-c]`, `[ab]+[bc]+`, `[a-z]+[a-z]+[0-9]`, `\w+\s\d+`,
 	`^(foo|bar|qux)`, `^(\d+|UUID|hex32)`, `^(?:GET|POST|PUT)`, `^(get|post)`, `^(kb|mb)`, `^(ab|cd)`, `^([a-c]+|x|yz)`,
-	`^/.*\.php$`, `^api/.*\.json$`, `^.*\.txt$`, `^/.*[\w-]+\.php$`, `^prefix.*suffix$`, `^abc`, `^[a-c]x`, `^(?:ab|cd)+x`}
+	`^/.*\.php$`, `\A/.*\.php$`, `\Aab.+cd$`, `^api/.*\.json$`, `^.*\.txt$`, `^/.*[\w-]+\.php$`, `^prefix.*suffix$`, `^abc`, `^[a-c]x`, `^(?:ab|cd)+x`}
 
 func c19Mutants(r *RNG, p string) []string {
 	out := []string{p}
@@ -214,6 +214,26 @@ func checkC19(r *Report, known []Finding) {
 						got = fmt.Sprintf("match [0,%d] starts with byte %#x which is not in the complete set", loc[1], h[0])
 					}
 					cases = append(cases, cs{p: p, searcher: "FirstBytes", op: "filter", h: h, got: got, prop: true, want: want})
+				}
+			}
+		}
+		// (6) whatever the predicates say, when the meta engine SELECTS one of the fast-path strategies for the pattern its
+		// answers must be regexp's (a selection guard dropped in meta/strategy.go is invisible to the predicate-level ties)
+		if eng, err := meta.Compile(p); err == nil {
+			switch st := eng.Strategy(); st {
+			case meta.UseAnchoredLiteral, meta.UseCharClassSearcher, meta.UseCompositeSearcher, meta.UseBranchDispatch:
+				r.Dist["selected:"+st.String()]++
+				extra := [][]byte{[]byte("/index.php\nnext line"), []byte("/index.php\n"), []byte("ab__cd\nx"), []byte("ab\ncd"), []byte("abxcd")}
+				for _, h := range append(append([][]byte(nil), hays...), extra...) {
+					wantM := fmt.Sprint(std.Match(h))
+					cases = append(cases, cs{p: p, searcher: "Engine[" + st.String() + "]", op: "IsMatch", h: h, got: fmt.Sprint(eng.IsMatch(h)), prop: true, want: wantM})
+					loc := std.FindIndex(h)
+					want := "nil"
+					if loc != nil {
+						want = fmt.Sprintf("%d,%d", loc[0], loc[1])
+					}
+					s0, e0, ok := eng.FindIndices(h)
+					cases = append(cases, cs{p: p, searcher: "Engine[" + st.String() + "]", op: "FindIndices", h: h, got: spanStr(s0, e0, ok), prop: true, want: want})
 				}
 			}
 		}
